@@ -62,6 +62,7 @@ def cases(draw):
     return {'cfg': cfg, 'pre': pre, 'cmd': cmd, 'mode': mode, 'ks': draw(st.lists(st.integers(0, 200), min_size=1, max_size=4)),
             'schedule': draw(st.lists(st.integers(0, 7), min_size=1, max_size=12)), 'flavour': draw(st.sampled_from(['controlled', 'sync'])),
             'crash_at': draw(st.one_of(st.integers(1, 8), st.integers(1, 30))), 'partial': draw(st.integers(0, 10 ** 6)),
+            'retry': draw(st.booleans()),
             'fail_ops': draw(st.sampled_from([['upload_stream'], ['upload'], ['delete'], ['exists'], ['download'], ['list_files'],
                                               ['upload_stream', 'upload', 'delete', 'exists', 'download']]))}
 
@@ -284,8 +285,7 @@ def _memory(case, work):
                 if state['name'] == (op, name):
                     return membackend.InjectedFailure(f'injected permanent failure of {op} {name}')
                 return None
-            store.fail_pred = pred
-            exc = _run_interrupted(case, store, u0, command, n, unlock_first=True)
+            exc, exc_retry = _run_permafail(case, store, u0, command, n, pred)
             store.fail_pred = None
             if state['name'] is not None:
                 classes.append('failed-call:' + state['name'][0])
@@ -294,6 +294,13 @@ def _memory(case, work):
                 if exc is None:
                     return Outcome(fail('failure-swallowed', f'{cmd["op"]}: backend call {state["name"]} failed for good but the command '
                                         f'returned normally'), classes, nontrivial)
+                if isinstance(exc, control.Hang):
+                    return Outcome(fail('hang', f'{cmd["op"]} hung after a permanent failure of {state["name"]}: {exc}'), classes, nontrivial)
+                if case.get('retry', True) and cmd['op'] != 'delete':
+                    classes.append('retried-on-same-object')
+                    if exc_retry is not None:
+                        return Outcome(fail('retry-failed', f'{cmd["op"]} retried on the same Repository object after the fault was gone raised '
+                                            f'{type(exc_retry).__name__}: {exc_retry}'), classes, nontrivial)
             elif exc is not None:
                 return Outcome(fail('spurious-error', f'{cmd["op"]} raised {type(exc).__name__}: {exc} without an injected failure'), classes)
             f = _judge(case, store.snapshot_objects(), users, expectation(), new_model, work, n, 'pf', cfg, sim,
@@ -355,6 +362,35 @@ def _run_interrupted(case, store, u0, command, n, unlock_first=False):
             return asyncio.run(main())
     except BaseException as e:      # Frozen propagating out of the loop
         return e
+    finally:
+        env.shutdown_executors()
+
+
+def _run_permafail(case, store, u0, command, n, pred):
+    """Unlock, then run the command with one backend call failing for good; afterwards (fault gone) run the command
+    again on the SAME Repository object, as a long-lived client retrying would. -> (exception of run 1, of run 2)"""
+    async def main():
+        repo = world.repository(world.backend_for('mem', store), n)
+        await repo.unlock(password=u0.password, key=u0.key)
+        store.fail_pred = pred
+        e1 = e2 = None
+        try:
+            await asyncio.wait_for(command(repo), 40)
+        except asyncio.TimeoutError:
+            e1 = control.Hang('command did not end within 40 s after a permanent backend failure')
+        except Exception as e:
+            e1 = e
+        store.fail_pred = None
+        await control._real_sleep(0.05)         # let what the failed command left behind finish
+        if e1 is not None and not isinstance(e1, control.Hang) and case.get('retry', True) and case['cmd']['op'] != 'delete':
+            try:
+                await asyncio.wait_for(command(repo), 40)
+            except Exception as e:
+                e2 = e
+        return e1, e2
+    try:
+        with world.capture():
+            return asyncio.run(main())
     finally:
         env.shutdown_executors()
 
